@@ -22,7 +22,7 @@ from ..corpus import b64, unb64
 PROP = "C13"
 LEVEL = "exploration"
 HISTORIES = {"quick": 260, "thorough": 6000}
-WALL = {"quick": 170, "thorough": 3300}
+WALL = {"quick": 900, "thorough": 6000}
 RULE = (
     "scenario = seeded history of 1-4 operations in one process (CLI scan/fix over 1-5 files each with its own configuration; "
     "or one reused PyMarkdownApi object with builder calls in between; optionally one operation carries an injected rule/parser "
@@ -35,7 +35,7 @@ ASSUMPTIONS = [
     "every operation works on its own files, so a fix in operation j cannot legitimately change the input of operation k",
 ]
 CHAINS_ENABLED = True
-PROBES = ["shape:chain", "history_cli_multi_invocation", "history_api_reuse", "history_with_fault", "multi_file_op", "carrier_pair_same_group", "extension_toggled", "api_after_exception"]
+PROBES = ["shape:dirty-chain", "dirty_chain_faults_fired", "shape:chain", "history_cli_multi_invocation", "history_api_reuse", "history_with_fault", "multi_file_op", "carrier_pair_same_group", "extension_toggled", "api_after_exception"]
 
 
 
@@ -158,7 +158,18 @@ def chain_plan(tier):
     for mode in ("scan", "fix"):
         for a_index, a_name in enumerate(pool):
             for start in range(0, len(pool), CHAIN_WIDTH):
-                plan.append((mode, a_name, pool[start : start + CHAIN_WIDTH], (a_index + start // CHAIN_WIDTH) % 2 == 1))
+                plan.append((mode, a_name, pool[start : start + CHAIN_WIDTH], (a_index + start // CHAIN_WIDTH) % 2 == 1, None))
+    # "dirty" chains: every `a` is cut short by an injected exception in the middle
+    # of its token (or line) dispatch, after all built-in rules have seen half of
+    # the document; with --continue-on-error the following b must still equal its
+    # solo run.  A rule whose per-file reset is incomplete is only visible like this
+    # when its state is self-cleaning over a complete document (stacks that unwind).
+    carriers_only = [n for n in usable if n in carriers_module.CARRIERS and docs[n].tags.get("lines", 0) < 200]
+    dirty_pool = carriers_only if tier == "quick" else pool
+    for a_index, a_name in enumerate(carriers_only):
+        for start in range(0, len(dirty_pool), CHAIN_WIDTH):
+            phase = "token" if (a_index + start // CHAIN_WIDTH) % 2 == 0 else "line"
+            plan.append(("scan", a_name, dirty_pool[start : start + CHAIN_WIDTH], False, phase))
     return plan
 
 
@@ -170,7 +181,7 @@ def _gen_chain(tier, index):
 
     if tier not in _PLAN_CACHE:
         _PLAN_CACHE[tier] = chain_plan(tier)
-    mode, a_name, b_names, optional = _PLAN_CACHE[tier][index]
+    mode, a_name, b_names, optional, dirty = _PLAN_CACHE[tier][index]
     docs = corpus.load()
     files, labels = {}, {}
     position = 0
@@ -182,6 +193,8 @@ def _gen_chain(tier, index):
             position += 1
     flags = list(ALL_OPTIONAL) if optional else []
     flags = ["--continue-on-error"] + flags
+    if dirty:
+        flags += workload.probe_flags(["zzz999"])
     op = {
         "kind": "cli-" + mode,
         "mode": mode,
@@ -192,7 +205,21 @@ def _gen_chain(tier, index):
         "labels": labels,
         "op": {"kind": "cli", "argv": flags + [mode] + sorted(files)},
     }
-    return {"cls": [0, "utf8"], "world": dict(NEUTRAL_WORLD), "shape": "chain", "group": None, "ops": [op], "plan": [], "chain": [a_name, b_names]}
+    sc = {"cls": [0, "utf8"], "world": dict(NEUTRAL_WORLD), "shape": "chain", "group": None, "ops": [op], "plan": [], "chain": [a_name, b_names]}
+    if dirty:
+        sc["shape"] = "dirty-chain"
+        site_name = "cb/zzz999/next_token" if dirty == "token" else "cb/zzz999/next_line"
+        dry = cached_run(_history_request(sc, record_sites=True), sc["cls"])
+        if done(dry):
+            counts = collections.Counter()
+            for site in dry["result"]["sites"]:
+                if site[0] == site_name:
+                    counts[site[1]] = max(counts[site[1]], site[2])
+            a_files = [path for path in sorted(files) if labels[path] == a_name and sorted(files).index(path) % 2 == 0]
+            for path in a_files:
+                if counts.get(path):
+                    sc["plan"].append({"site": site_name, "file": path, "ord": max(1, (counts[path] + 1) // 2), "act": "raise_after", "exc": "RuntimeError", "op": 0})
+    return sc
 
 
 def chain_count(tier):
@@ -202,9 +229,15 @@ def chain_count(tier):
 
 
 def generate(rng, tier, index):
-    chains = chain_count(tier) if CHAINS_ENABLED else 0
-    if index < chains:
-        return _gen_chain(tier, index)
+    # scenario order: seeded histories first, then the (dirty, then plain) chains,
+    # so that a wall-capped run still samples every shape
+    if index >= HISTORIES[tier]:
+        total = chain_count(tier)
+        chain_index = index - HISTORIES[tier]
+        # the dirty chains sit at the end of the plan: serve them first
+        plain = sum(1 for entry in _PLAN_CACHE[tier] if entry[4] is None)
+        dirty = total - plain
+        return _gen_chain(tier, plain + chain_index if chain_index < dirty else chain_index - dirty)
     shape = rng.choice(["single-multi", "cli-seq", "cli-seq", "api-seq", "api-seq", "mixed"])
     group = workload.draw_group(rng) if rng.random() < 0.7 else None
     ops = []
@@ -349,9 +382,14 @@ def evaluate(sc):
             stats["api_after_exception"] += 1
         if (got.get("api") or {}).get("type") == "exception":
             seen_exception = True
+        faulted_files = {entry["file"] for entry in (sc.get("plan") or []) if entry.get("op", 0) == index}
         if index in faulted_ops:
-            continue
-        if len(sc["ops"]) == 1 and sc["world"] == NEUTRAL_WORLD:
+            # only the file level can be judged, and only with --continue-on-error:
+            # every file without a fault must still equal its solo run
+            if not (op["kind"].startswith("cli") and op.get("coe") and len(op["docs"]) >= 2):
+                continue
+            alone = history
+        elif len(sc["ops"]) == 1 and sc["world"] == NEUTRAL_WORLD:
             alone = history
         else:
             alone = cached_run(_alone_request(sc, index), sc["cls"])
@@ -359,7 +397,7 @@ def evaluate(sc):
         if not done(alone):
             stats["alone_unusable"] += 1
             continue
-        want = alone["result"]["ops"][0]
+        want = alone["result"]["ops"][0] if alone is not history else got
         got_sig, want_sig = _op_signature(got), _op_signature(want)
         if got_sig != want_sig:
             field = next(k for k in ("exit", "exc", "api", "stdout", "stderr") if got_sig[k] != want_sig[k])
@@ -389,6 +427,8 @@ def evaluate(sc):
             if view.exc or any(marker in view.stderr for marker in ("Unexpected Error", "Configuration Error", " encountered while scanning ")):
                 continue  # the operation was cut short at the failing file (no --continue-on-error)
             for name in op["docs"]:
+                if name in faulted_files:
+                    continue
                 solo_request = {
                     "files": {name: op["files"][name]},
                     "world": dict(NEUTRAL_WORLD),
@@ -430,6 +470,8 @@ def evaluate(sc):
                     )
                     break
     stats["shape:" + sc["shape"]] += 1
+    if sc["shape"] == "dirty-chain":
+        stats["dirty_chain_faults_fired"] += fired
     faults = {}
     if sc.get("plan"):
         faults[sc["plan"][0]["site"].split("/")[0]] = [1, fired]
